@@ -30,10 +30,15 @@ class Call(Expression):
 
         _ParseFunction = Code('_ParseFunction')
 
-        if flags.uses_context and not self.func.is_local:
-            resolved_func = f'_ctx.{self.func.resolved}'
-        else:
-            resolved_func = self.func.resolved
+        resolved_func = self.func.resolved
+        if (
+            flags.uses_context
+            and not self.func.is_local
+            # "super.R(...)" means the parent of the grammar that contains this
+            # call, not the parent of the grammar we were entered through.
+            and not resolved_func.startswith('_super_ctx.')
+        ):
+            resolved_func = f'_ctx.{resolved_func}'
 
         func = _ParseFunction(Code(resolved_func), tuple(args), tuple(kwargs))
         func = out.var('func', func)
